@@ -1,5 +1,358 @@
 import FcpptModel.Prelude.Proto
-/-! Driver for C16 — placeholder until the property's model is built. -/
+import FcpptModel.Model.C16
+/-!
+Driver for C16.  Elements are 0,1,2.  A sequence token is a digit string (`-` = empty).
+
+* `s <fn> <src> <params…> <seq>`  one evaluation of `<fn>` on the source container of kind `<src>` holding `<seq>`
+* `d <fn> <src> <params…> <len>`  FNV digest of the result lines of `s …` for all sequences of length `<len>`
+                                  (base-3 counting order, most significant digit first)
+  source kinds: `v` vector `l` list `d` deque `f` forward_list (no `size()`) `s` set (sorted, unique)
+  `m` map position→value (iterated values) `a` fcppt::array `t` fcppt::tuple (len ≤ 3) `p` mpl list (len ≤ 2)
+  `i` int_range `[b,e)` and `e` enum range — for these the "sequence" is the two digits `be` (0..3)
+  and `d … <len>` enumerates the pairs with `max(e-b,0) = len`.
+* `split <K> <str>` / `dsplit <K> <len>`, `joinstr <D> <n> <p1> … <pn>` / `djoin <D> <n>` strings over a,b and delimiter c
+* `m <fn> <params…> <M>` / `dm <fn> <params…>` maps {0,1,2} → {0,1,2} coded base 4 (digit 0 = key absent)
+* `setop <U|I|D> <A> <B>` (comma lists) / `dset <U|I|D>` (all pairs of subsets of {0,1,2})
+* `repeat <C>`, `genn <T> <N>`, `ainit <N>`
+* history ops for `index_map`: `reset`, `imget <i>`, `imidx <i>`
+
+Parameters: `P` predicate table 0..7 (bit x = p x), `V` value, `F` function table 0..26 (base 3), `G` optional-valued
+table 0..63 (base 4, digit 0 = none), `H` sequence-valued table 0..63, `B` break table 0..7, `R` relation 0..511.
+-/
 namespace Fcppt.C16.Drv
-def main : IO Unit := Fcppt.Proto.run (fun _ => "not-built")
+open Fcppt.Proto Fcppt.C16
+
+def ds (l : List Nat) : String := if l.isEmpty then "-" else String.join (l.map toString)
+
+def parseSeq (s : String) : Option (List Nat) :=
+  if s = "-" then some [] else
+    s.toList.mapM fun c => if '0' ≤ c ∧ c ≤ '9' then some (c.toNat - '0'.toNat) else none
+
+def bit (m x : Nat) : Bool := m.testBit x
+def tblF (F x : Nat) : Nat := (F / 3 ^ x) % 3
+def tblG (G x : Nat) : Option Nat := let d := (G / 4 ^ x) % 4; if d = 0 then none else some (d - 1)
+def tblH (H x : Nat) : List Nat :=
+  match (H / 4 ^ x) % 4 with
+  | 0 => [] | 1 => [x] | 2 => [x, (x + 1) % 3] | _ => [2, x, x]
+def rel (R a b : Nat) : Bool := R.testBit (3 * a + b)
+
+/-- the elements the source container of kind `k` presents, given the token -/
+def toSource (k : String) (tok : String) : Option (List Nat) := do
+  let xs ← parseSeq tok
+  match k with
+  | "v" | "l" | "d" | "f" | "m" => if xs.all (· < 3) then some xs else none
+  | "a" => if xs.all (· < 3) ∧ xs.length ≤ 6 then some xs else none
+  | "t" => if xs.all (· < 3) ∧ xs.length ≤ 3 then some xs else none
+  | "p" => if xs.all (· < 3) ∧ xs.length ≤ 2 then some xs else none
+  | "s" => if xs.all (· < 3) then some (setOfList xs) else none
+  | "i" => match xs with
+    | [b, e] => if b ≤ 3 ∧ e ≤ 3 then some ((List.range (e - b)).map (· + b)) else none
+    | _ => none
+  | "e" => match xs with
+    | [b, e] => if b ≤ e ∧ e ≤ 3 then some ((List.range (e - b)).map (· + b)) else none
+    | _ => none
+  | _ => none
+
+def hasSize (k : String) : Bool := k != "f"
+
+def optIdx (xs : List Nat) : Option Nat → String
+  | none => "none"
+  | some i => match xs[i]? with
+    | some v => s!"{i}:{v}"
+    | none => s!"{i}:oob"
+
+def exc {α : Type} (f : α → String) : Except Fault α → String
+  | .ok a => f a
+  | .error e => e.name
+
+def cutParts (xs : List Nat) (c1 c2 : Nat) : List Nat × List Nat × List Nat :=
+  (xs.take c1, (xs.take c2).drop c1, xs.drop c2)
+
+def readonlyKinds : List String := ["v", "l", "d", "f", "s", "m", "i", "e"]
+def seqKinds : List String := ["v", "l", "d"]
+
+/-- one evaluation; `none` = malformed -/
+def evalFn (fn k : String) (ps : List Nat) (raw xs : List Nat) : Option String :=
+  let ro := readonlyKinds.contains k
+  let sq := seqKinds.contains k
+  match fn, ps with
+  | "map", [t, F] =>
+    if !(ro || k == "a" || k == "p") || t > 3 || F ≥ 27 || ((k == "a" || k == "p") && t != 0) then none else
+    let (r, log) :=
+      if t == 3 then let (c, log) := mapSet xs (tblF F); (c.elems, log)
+      else let (c, log) := mapSeq (if t == 0 && hasSize k then some xs.length else none) xs (tblF F); (c.elems, log)
+    some s!"{ds r}|{ds log}"
+  | "mapopt", [t, G] =>
+    if !ro || t > 3 || G ≥ 64 then none else
+    let (r, log) := mapOptional xs (tblG G)
+    some s!"{ds (if t == 3 then setOfList r else r)}|{ds log}"
+  | "mapcat", [t, H] =>
+    if !ro || t > 3 || H ≥ 64 then none else
+    let (r, log) := mapConcat xs (tblH H)
+    some s!"{ds (if t == 3 then setOfList r else r)}|{ds log}"
+  | "fold", [] =>
+    if !(ro || k == "a") then none else
+    some (toString (fold xs 0 (fun e st => st * 4 + e + 1)))
+  | "foldbrk", [B] =>
+    if !ro || B ≥ 8 then none else
+    some (toString (foldBreak xs 0 (fun e st => (if bit B e then .break_ else .continue_, st * 4 + e + 1))))
+  | "loopbrk", [B] =>
+    if !(ro || k == "a" || k == "t" || k == "p") || B ≥ 8 then none else
+    let body : Nat → Unit → Loop × Unit := fun e _ => (if bit B e then .break_ else .continue_, ())
+    let r := if k == "t" || k == "p" then tupleLoopBreak xs (logged body) 0 ((), []) else loopBreak xs (logged body) ((), [])
+    some (ds r.2)
+  | "loop", [] =>
+    if !ro then none else
+    some (ds (loop xs (fun e log => log ++ [e]) []))
+  | "allof", [P] =>
+    if !ro || P ≥ 8 then none else
+    let (r, log) := allOf xs (bit P); some s!"{b01 r}|{ds log}"
+  | "containsif", [P] =>
+    if !ro || P ≥ 8 then none else
+    let (r, log) := containsIf xs (bit P); some s!"{b01 r}|{ds log}"
+  | "contains", [V] =>
+    if !ro || k == "m" || V ≥ 3 then none else some (b01 (contains xs V))
+  | "findopt", [V] =>
+    if !ro || k == "m" || V ≥ 3 then none else some (optIdx xs (findOpt xs V))
+  | "findifopt", [P] =>
+    if !ro || P ≥ 8 then none else some (optIdx xs (findIfOpt xs (bit P)))
+  | "findbyopt", [G] =>
+    if !ro || G ≥ 64 then none else
+    let (r, log) := findByOpt xs (tblG G)
+    some s!"{match r with | none => "none" | some v => toString v}|{ds log}"
+  | "indexof", [V] =>
+    if !(k == "v" || k == "d" || k == "a") || V ≥ 3 then none else
+    some (match indexOf xs V with | none => "none" | some i => toString i)
+  | "eqrange", [V] =>
+    if !(sq || k == "s") || V ≥ 3 then none else
+    some (exc (fun r => s!"{r.1},{r.2}") (equalRange (fun a b => decide (a < b)) xs V))
+  | "bsearch", [V] =>
+    if !(sq || k == "s") || V ≥ 3 then none else
+    some (exc (optIdx xs) (binarySearch (fun a b => decide (a < b)) xs V))
+  | "removeif", [P] =>
+    if !sq || P ≥ 8 then none else
+    let (r, c) := removeIf xs xs (bit P); some s!"{b01 r}|{ds c}"
+  | "remove", [V] =>
+    if !sq || V ≥ 3 then none else
+    let (r, c) := remove xs xs V; some s!"{b01 r}|{ds c}"
+  | "unique", [] => if !sq then none else some (ds (unique xs xs))
+  | "uniqueif", [R] => if !sq || R ≥ 512 then none else some (ds (uniqueIf xs xs (rel R)))
+  | "reverse", [] => if !sq then none else some (exc ds (reverse xs))
+  | "seqiter", [R] =>
+    if !sq || R ≥ 8 then none else
+    let (c, log) := seqIteration xs (fun e log => (bit R e, log ++ [e])) []
+    some s!"{ds c}|{ds log}"
+  | "atopt", [I] =>
+    if !(k == "v" || k == "d" || k == "a") then none else
+    some (match atOptional xs I with | none => "none" | some r => exc toString r)
+  | "join", [K, c1, c2] =>
+    -- the parts are cut from the raw sequence (each part becomes its own container)
+    let xs := raw
+    if !(sq || k == "s") || K < 1 || K > 3 || c1 > c2 || c2 > xs.length then none else
+    let (a, b, c) := cutParts xs c1 c2
+    -- for K = 1 the whole sequence, for K = 2 the parts [0,c1) and [c1,len)
+    let parts : List (List Nat) := if K == 1 then [xs] else if K == 2 then [a, b ++ c] else [a, b, c]
+    match parts with
+    | [] => none
+    | p :: rest =>
+      if k == "s" then some (ds (joinSet (setOfList p) (rest.map setOfList)))
+      else some (ds (join p rest))
+  | "amap", [F] =>
+    if k != "a" || F ≥ 27 then none else some (exc ds (arrayMap xs (tblF F)))
+  | "aappend", [c1] =>
+    if k != "a" || c1 > xs.length || c1 > 3 || xs.length - c1 > 3 then none else some (exc ds (arrayAppend (xs.take c1) (xs.drop c1)))
+  | "ajoin", [c1, c2] =>
+    if k != "a" || c1 > c2 || c2 > xs.length || c1 > 2 || c2 - c1 > 2 || xs.length - c2 > 2 then none else
+    let (a, b, c) := cutParts xs c1 c2
+    some (exc ds (arrayJoin a [b, c]))
+  | "apush", [V] =>
+    if k != "a" || xs.length > 5 || V ≥ 3 then none else some (exc ds (arrayPushBack xs V))
+  | "afrom", [N] =>
+    if !(k == "v" || k == "d") || N > 4 then none else
+    some (match arrayFromRange N xs with | none => "none" | some r => exc ds r)
+  | "tmap", [F] =>
+    if k != "t" || F ≥ 27 then none else some (exc ds (tupleMap xs (tblF F)))
+  | "tpush", [V] =>
+    if k != "t" || xs.length > 2 || V ≥ 3 then none else some (exc ds (tuplePushBack xs V))
+  | "tconcat", [c1, c2] =>
+    if k != "t" || c1 > c2 || c2 > xs.length then none else
+    let (a, b, c) := cutParts xs c1 c2
+    some (ds (tupleConcat [a, b, c]))
+  | _, _ => none
+
+/-- all source tokens of "length" `len` for kind `k`, in the order both sides enumerate them -/
+def enumTokens (k : String) (len : Nat) : List String :=
+  if k == "i" || k == "e" then
+    (List.range 4).flatMap fun b => (List.range 4).filterMap fun e =>
+      if (e - b) = len ∧ (k == "i" ∨ b ≤ e) then some s!"{b}{e}" else none
+  else
+    (List.range (3 ^ len)).map fun n =>
+      if len = 0 then "-" else String.join ((List.range len).map fun i => toString ((n / 3 ^ (len - 1 - i)) % 3))
+
+def evalS (fn k : String) (ps : List String) (tok : String) : Option String := do
+  let ps ← ps.mapM String.toNat?
+  let xs ← toSource k tok
+  let raw ← parseSeq tok
+  evalFn fn k ps raw xs
+
+def evalD (fn k : String) (ps : List String) (len : Nat) : Option String := do
+  let lines ← (enumTokens k len).mapM (evalS fn k ps)
+  pure ("D " ++ hex64 (lines.foldl fnv fnvInit))
+
+/-! strings -/
+
+def parseStr (s : String) : Option (List Char) :=
+  if s = "-" then some [] else if s.toList.all (fun c => c == 'a' || c == 'b' || c == 'c') then some s.toList else none
+
+def showStr (l : List Char) : String := if l.isEmpty then "-" else String.ofList l
+
+def splitLine (s : List Char) : String :=
+  let pieces := splitString s 'c'
+  let rt := joinStrings pieces ['c'] == s
+  s!"{pieces.length}:{"/".intercalate (pieces.map String.ofList)} rt={b01 rt}"
+
+def allStrings (alpha : List Char) (len : Nat) : List (List Char) :=
+  let k := alpha.length
+  (List.range (k ^ len)).map fun n => (List.range len).map fun i => alpha.getD ((n / k ^ (len - 1 - i)) % k) 'a'
+
+def pieceChoices : List (List Char) := (List.range 3).flatMap (allStrings ['a', 'b'])
+
+def allPieceTuples : Nat → List (List (List Char))
+  | 0 => [[]]
+  | n + 1 => (allPieceTuples n).flatMap fun t => pieceChoices.map fun p => t ++ [p]
+
+def joinLine (d : List Char) (pieces : List (List Char)) : String := showStr (joinStrings pieces d)
+
+/-! maps over {0,1,2} -/
+
+def decodeMap (M : Nat) : Map :=
+  (List.range 3).filterMap fun k => let d := (M / 4 ^ k) % 4; if d = 0 then none else some (k, d - 1)
+
+def encodeMap (m : Map) : String :=
+  if m.isEmpty then "-" else ",".intercalate (m.map fun e => s!"{e.1}>{e.2}")
+
+def evalM (fn : String) (ps : List Nat) (M : Nat) : Option String :=
+  if M ≥ 64 then none else
+  -- the container is built by emplacing the pairs in descending key order (the result is sorted all the same)
+  let m := mapOfList (decodeMap M).reverse
+  match fn, ps with
+  | "findmapped", [K] => if K ≥ 3 then none else
+    some (match findOptMapped m K with | none => "none" | some v => toString v)
+  | "getorins", [K] => if K ≥ 3 then none else
+    let (r, m', calls) := getOrInsert m K (fun k (calls : List Nat) => ((k + 1) % 3, calls ++ [k])) []
+    some s!"{exc (fun r => s!"{r.1},{b01 r.2}") r}|{encodeMap m'}|{ds calls}"
+  | "keyset", [] => some (ds (keySet m))
+  | "mapvals", [] => some (ds (mapValues m))
+  | "mapiter", [R] => if R ≥ 64 then none else
+    -- remove iff bit (3*(k%2) + v)… kept simple: bit (k + v) % 6 of R
+    let (m', log) := mapIteration m (fun e log => (bit R ((e.1 + 2 * e.2) % 6), log ++ [e.1])) []
+    some s!"{encodeMap m'}|{ds log}"
+  | "mapiter2", [R] => if R ≥ 8 then none else
+    let (m', log) := mapIteration m (fun e log => (bit R e.2, log ++ [e.2])) []
+    some s!"{encodeMap m'}|{ds log}"
+  | _, _ => none
+
+def maskList (m : Nat) : List Nat := (List.range 3).filter (bit m)
+
+def setopLine (op : String) (a b : List Nat) : Option String :=
+  let a := setOfList a; let b := setOfList b
+  match op with
+  | "U" => some (natList (setUnion a b))
+  | "I" => some (natList (setIntersection a b))
+  | "D" => some (natList (setDifference a b))
+  | _ => none
+
+def nl (l : List Nat) : String := if l.isEmpty then "-" else natList l
+
+/-- generator used by `genn`, `imget`, `ainit`: k-th call returns k*k % 7 -/
+def gen (g : Nat) : Nat × Nat := (g * g % 7, g + 1)
+
+structure St where
+  impl : List Nat := []
+  g : Nat := 0
+
+def stateless (toks : List String) : String :=
+  let r : Option String :=
+    match toks with
+    | "s" :: fn :: k :: rest =>
+      match rest.getLast? with
+      | some tok => evalS fn k rest.dropLast tok
+      | none => none
+    | "d" :: fn :: k :: rest =>
+      match rest.getLast? with
+      | some l => do let len ← l.toNat?; if len > 8 then none else evalD fn k rest.dropLast len
+      | none => none
+    | ["split", _, s] => (parseStr s).map splitLine
+    | ["dsplit", _, l] => do
+      let len ← l.toNat?
+      if len > 9 then none else
+      pure ("D " ++ hex64 ((allStrings ['a', 'b', 'c'] len).foldl (fun h s => fnv h (splitLine s)) fnvInit))
+    | "joinstr" :: d :: n :: ps => do
+      let d ← parseStr d
+      let n ← n.toNat?
+      if ps.length ≠ n then none else
+      let ps ← ps.mapM parseStr
+      pure (joinLine d ps)
+    | ["djoin", d, n] => do
+      let d ← parseStr d
+      let n ← n.toNat?
+      if n > 4 then none else
+      pure ("D " ++ hex64 ((allPieceTuples n).foldl (fun h t => fnv h (joinLine d t)) fnvInit))
+    | "m" :: fn :: rest =>
+      match rest.getLast? with
+      | some M => do
+        let ps ← rest.dropLast.mapM String.toNat?
+        let M ← M.toNat?
+        evalM fn ps M
+      | none => none
+    | "dm" :: fn :: rest => do
+      let ps ← rest.mapM String.toNat?
+      let lines ← (List.range 64).mapM (evalM fn ps)
+      pure ("D " ++ hex64 (lines.foldl fnv fnvInit))
+    | ["setop", op, a, b] => do
+      let a ← parseNatList a
+      let b ← parseNatList b
+      (setopLine op a b).map fun s => if s.isEmpty then "-" else s
+    | ["dset", op] => do
+      let lines ← ((List.range 64).mapM fun n => setopLine op (maskList (n / 8)) (maskList (n % 8)))
+      pure ("D " ++ hex64 (lines.foldl (fun h s => fnv h (if s.isEmpty then "-" else s)) fnvInit))
+    | ["repeat", c] => do
+      let c ← c.toInt?
+      if c < -1000 ∨ c > 1000 then none else
+      pure (toString (repeatLoop c (· + 1) 0 (0 : Nat)))
+    | ["genn", t, n] => do
+      let n ← n.toNat?
+      if n > 64 ∨ !(["v", "l", "d"].contains t) then none else
+      pure (nl (generateN n gen 0).1.elems)
+    | ["ainit", n] => do
+      let n ← n.toNat?
+      if n > 6 then none else
+      let (r, log) := arrayInitS (fun i (log : List Nat) => ((i * i + 1) % 7, log ++ [i])) n []
+      pure s!"{nl r}|{nl log}"
+    | _ => none
+  r.getD "bad-op"
+
+def step (st : St) (toks : List String) : St × String :=
+  match toks with
+  | ["reset"] => ({}, "ok")
+  | ["imget", i] =>
+    match i.toNat? with
+    | some i =>
+      if i > 64 then (st, "bad-op") else
+      match indexMapGet st.impl i gen st.g with
+      | .ok (v, impl, g) => ({ impl, g }, s!"{v} {impl.length}|{nl impl}")
+      | .error e => (st, e.name)
+    | none => (st, "bad-op")
+  | ["imidx", i] =>
+    match i.toNat? with
+    | some i =>
+      if i > 64 then (st, "bad-op") else
+      match indexMapGet st.impl i (fun (u : Unit) => (0, u)) () with
+      | .ok (v, impl, _) => ({ st with impl }, s!"{v} {impl.length}|{nl impl}")
+      | .error e => (st, e.name)
+    | none => (st, "bad-op")
+  | _ => (st, stateless toks)
+
+def main : IO Unit := Proto.runState ({} : St) step
+
 end Fcppt.C16.Drv
